@@ -39,6 +39,9 @@ func NewHistory(path string, maxSize int) (*History, error) {
 	}
 	// Split lines and limit the maximum number of lines
 	lines := strings.Split(strings.Trim(string(data), "\n"), "\n")
+	if len(lines) > maxSize {
+		lines = lines[len(lines)-maxSize:]
+	}
 	if len(lines[len(lines)-1]) > 0 {
 		lines = append(lines, "")
 	}
